@@ -81,6 +81,12 @@ CLAIMED["C08"] = dict(
     note="Trusted: rustc layout of the pointer-narrowed structs on x86-64 as a stand-in for wasm32; the legacy flattening model transcribed from docs/wasm_abi_quirks.md (no legacy-ABI compiler available); node executing the generated modules.",
     ref="DESIGN.md §2 C08")
 
+CLAIMED["C04"] = dict(
+    engine="P", technique="model-based property testing over generated method signatures (Hypothesis): reference outlives model cross-validated by rustc, compared with the tool's borrow map and the edge lists emitted by managed backends",
+    text="Generated signatures (up to 4 method lifetimes + impl lifetimes, arbitrary declared bounds, implied bounds from references and definitions, 'static, anonymous inputs, optional and nested borrowing structs): the tool's borrow map must equal, per output lifetime, the set of input slots the outlives closure requires (both inclusions). The closure itself is validated against rustc on sampled signatures (one probe function per ordered lifetime pair). JS and Dart edge lists must contain the expected inputs. Exploration.",
+    note="Trusted: rustc as the arbiter of outlives; the signature renderer; the JS/Dart edge-list parsers. 'static inputs are don't-care. The definition-site gap (known finding) is excluded by spelling all bounds and probed separately.",
+    ref="DESIGN.md §2 C04")
+
 TODO_REASON = "check not built yet in this revision of /verif (planned, see DESIGN.md §2); not claimed until it is silent on the unchanged tree and kills its mutants"
 
 ALL = ["C%02d" % i for i in range(1, 18)]
